@@ -1,0 +1,159 @@
+// SPDX-FileCopyrightText: 2026 The Pion community <https://pion.ly>
+// SPDX-License-Identifier: MIT
+
+//go:build verif
+
+package ice
+
+import (
+	"errors"
+	"net"
+	"net/netip"
+
+	"github.com/pion/logging"
+)
+
+// Exports of the address-rewrite machinery for the external verification harness (/verif,
+// property C19). Built only with -tags verif.
+
+// VerifRewriteMapper wraps a compiled address rewrite mapper together with a bare agent that
+// carries it, so that the application functions of gather.go can be called.
+type VerifRewriteMapper struct {
+	mapper *addressRewriteMapper
+	agent  *Agent
+}
+
+// VerifRewriteErrCode maps an error of the rewrite machinery to a small code:
+// 0 none, 1 ErrInvalidNAT1To1IPMapping, 2 ErrUnsupportedNAT1To1IPCandidateType, 9 anything else.
+func VerifRewriteErrCode(err error) int {
+	switch {
+	case err == nil:
+		return 0
+	case errors.Is(err, ErrInvalidNAT1To1IPMapping):
+		return 1
+	case errors.Is(err, ErrUnsupportedNAT1To1IPCandidateType):
+		return 2
+	default:
+		return 9
+	}
+}
+
+// VerifNewRewriteMapper runs newAddressRewriteMapper. The mapper is nil when the rule list
+// compiles to nothing.
+func VerifNewRewriteMapper(rules []AddressRewriteRule) (*VerifRewriteMapper, int) {
+	mapper, err := newAddressRewriteMapper(rules)
+	if err != nil {
+		return nil, VerifRewriteErrCode(err)
+	}
+	if mapper == nil {
+		return nil, 0
+	}
+
+	agent := &Agent{
+		addressRewriteMapper: mapper,
+		log:                  logging.NewDefaultLoggerFactory().NewLogger("verif"),
+	}
+
+	return &VerifRewriteMapper{mapper: mapper, agent: agent}, 0
+}
+
+// Find runs addressRewriteMapper.findExternalIPs.
+func (m *VerifRewriteMapper) Find(typ CandidateType, local, iface string) ([]net.IP, bool, int, bool) {
+	ips, matched, mode, err := m.mapper.findExternalIPs(typ, local, iface)
+
+	return ips, matched, int(mode), err != nil
+}
+
+// HasCandidateType runs addressRewriteMapper.hasCandidateType.
+func (m *VerifRewriteMapper) HasCandidateType(typ CandidateType) bool {
+	return m.mapper.hasCandidateType(typ)
+}
+
+// ShouldReplace runs addressRewriteMapper.shouldReplace.
+func (m *VerifRewriteMapper) ShouldReplace(typ CandidateType) bool {
+	return m.mapper.shouldReplace(typ)
+}
+
+// HostAddresses is what gatherCandidatesLocal computes for one local address.
+func (m *VerifRewriteMapper) HostAddresses(addr netip.Addr, iface string) ([]netip.Addr, bool) {
+	mappedAddrs := []netip.Addr{addr}
+	if m.agent.shouldRewriteHostCandidates() {
+		return m.agent.applyHostAddressRewrite(addr, mappedAddrs, iface)
+	}
+
+	return mappedAddrs, true
+}
+
+// UDPMuxAddresses is what gatherCandidatesLocalUDPMux computes for one listen address.
+func (m *VerifRewriteMapper) UDPMuxAddresses(udpAddr *net.UDPAddr) ([]net.IP, bool) {
+	candidateIPs := []net.IP{udpAddr.IP}
+	if m.agent.shouldRewriteHostCandidates() {
+		return m.agent.applyHostRewriteForUDPMux(candidateIPs, udpAddr)
+	}
+
+	return candidateIPs, true
+}
+
+// ResolveSrflx runs Agent.resolveSrflxAddresses.
+func (m *VerifRewriteMapper) ResolveSrflx(localIP net.IP, iface string) ([]net.IP, bool) {
+	return m.agent.resolveSrflxAddresses(localIP, iface)
+}
+
+// ResolveRelay runs Agent.resolveRelayAddresses.
+func (m *VerifRewriteMapper) ResolveRelay(address net.IP, relAddr, iface string) ([]net.IP, bool) {
+	return m.agent.resolveRelayAddresses(relayEndpoint{address: address, relAddr: relAddr, iface: iface})
+}
+
+// VerifOptionRewriteRules applies WithAddressRewriteRules to a bare, unconstructed agent and
+// returns the rules it stored.
+func VerifOptionRewriteRules(rules ...AddressRewriteRule) ([]AddressRewriteRule, int) {
+	agent := &Agent{}
+	if err := WithAddressRewriteRules(rules...)(agent); err != nil {
+		return nil, VerifRewriteErrCode(err)
+	}
+
+	return agent.addressRewriteRules, 0
+}
+
+// VerifLegacyRewriteRules is the NAT1To1IPs block of newAgentFromConfig.
+func VerifLegacyRewriteRules(ips []string, cfgType CandidateType) ([]AddressRewriteRule, int) {
+	if err := validateLegacyNAT1To1IPs(ips); err != nil {
+		return nil, VerifRewriteErrCode(err)
+	}
+
+	typ := CandidateTypeHost
+	if cfgType != CandidateTypeUnspecified {
+		typ = cfgType
+	}
+
+	rules, err := legacyNAT1To1Rules(ips, typ)
+	if err != nil {
+		return nil, VerifRewriteErrCode(err)
+	}
+
+	return rules, 0
+}
+
+// VerifCatchAllSpecificity runs catchAllSpecificity on a bare rule mapping.
+func VerifCatchAllSpecificity(ruleIface string, hasCIDR bool, lookupIface string) int {
+	rule := &addressRewriteRuleMapping{rule: AddressRewriteRule{Iface: ruleIface}}
+	if hasCIDR {
+		rule.cidr = &net.IPNet{IP: net.IPv4zero, Mask: net.CIDRMask(0, 32)}
+	}
+
+	return catchAllSpecificity(rule, lookupIface)
+}
+
+// VerifDefaultAddressRewriteMode runs defaultAddressRewriteMode.
+func VerifDefaultAddressRewriteMode(typ CandidateType) int {
+	return int(defaultAddressRewriteMode(typ))
+}
+
+// VerifRewriteFlags runs hasMappings and isFamilyAllowed on a bare rule mapping.
+func VerifRewriteFlags(v4Valid, v6Valid, allow4, allow6, isLocalIPv4 bool) (bool, bool) {
+	rule := &addressRewriteRuleMapping{allowIPv4: allow4, allowIPv6: allow6}
+	rule.ipv4Mapping.valid = v4Valid
+	rule.ipv6Mapping.valid = v6Valid
+
+	return rule.hasMappings(), rule.isFamilyAllowed(isLocalIPv4)
+}
